@@ -16,14 +16,18 @@ Record deviations := {
   d_su_coincidence : bool;     (* D64: a time-only once() whose instant today equals startup_time is not moved to the next day *)
   d_newsub_adj_recheck : bool; (* D62: (running trigger, default subsystem) the wake-up re-check uses the DST-adjusted time *)
   d_legacy_gap_recheck : bool; (* D66: (running trigger, legacy subsystem) an early wake-up is re-armed with a naive difference *)
-  d_md_invalid_raises : bool   (* D65: once(2/29 ...) raises ValueError in a year without that day instead of skipping the year *)
+  d_md_invalid_raises : bool;  (* D65: once(2/29 ...) raises ValueError in a year without that day instead of skipping the year *)
+  d_legacy_stop_fault : bool   (* D67: (removal, legacy subsystem) an unsubscribe callback that raises aborts TrigInfo.stop before the
+                                  trigger task is cancelled and the "shutdown" entry runs *)
 }.
 Definition all_off : deviations :=
   {| d_period_wallclock := false; d_once_md_this_year := false; d_float_floor := false; d_su_coincidence := false;
-     d_newsub_adj_recheck := false; d_legacy_gap_recheck := false; d_md_invalid_raises := false |}.
+     d_newsub_adj_recheck := false; d_legacy_gap_recheck := false; d_md_invalid_raises := false;
+     d_legacy_stop_fault := false |}.
 Definition as_code : deviations :=
   {| d_period_wallclock := true; d_once_md_this_year := true; d_float_floor := true; d_su_coincidence := true;
-     d_newsub_adj_recheck := true; d_legacy_gap_recheck := true; d_md_invalid_raises := true |}.
+     d_newsub_adj_recheck := true; d_legacy_gap_recheck := true; d_md_invalid_raises := true;
+     d_legacy_stop_fault := true |}.
 
 (* ---------- cron(min hr dom mon dow): every field already expanded to its value set; None = "*" ---------- *)
 Record cronx := { c_min : option (list Z); c_hour : option (list Z); c_dom : option (list Z);
@@ -218,6 +222,12 @@ Section Wake.
         else (if (t <=? l) || (lu t - w <=? 1) then Some u else default_wake f t adj (u + (lu t - w)))
     end.
 End Wake.
+
+(* ---------- removal ---------- *)
+(* TrigInfo.stop (legacy) / DecoratorManager.stop (default): unsubscribe the sibling triggers, cancel the timer task, run the
+   "shutdown" entry.  [true] = the last two steps happen although a sibling's unsubscribe callback raises. *)
+Definition stop_completes (cfg : deviations) (legacy unsubscribe_raises : bool) : bool :=
+  negb (legacy && unsubscribe_raises && d_legacy_stop_fault cfg).
 
 (* ================================================================================================ *)
 (* Spec: the instants a specification denotes at current time [now] for a trigger started at [su]    *)
